@@ -12,6 +12,7 @@
    No Mathlib. -/
 import LdkModel.Model.Noise
 import LdkModel.Generated.Consts
+import LdkModel.Generated.PeerGate
 namespace Ldk.Framing
 open Ldk.Noise
 
@@ -167,20 +168,20 @@ def Sender.ofKeys (k : Keys) : Sender := { sk := k.sk, sn := k.sn, sck := k.sck 
 def Receiver.ofKeys (k : Keys) : Receiver := Receiver.start k.rk k.rck
 
 /-! ### PeerGate: which decrypted messages are passed up (do_handle_message_holding_peer_lock,
-    do_handle_message_without_peer_lock) -/
-
-/-- how `wire::read` + the handlers classify a message type -/
-inductive Kind where
-  | init      -- msgs::Init::TYPE (16)
-  | known     -- a type some handler (channel / routing / onion / custom) consumes
-  | unknown   -- `Message::Unknown(type)`
-  deriving DecidableEq, Repr
+    do_handle_message_without_peer_lock).  The DECISIONS are the definitions of Generated/PeerGate.lean, which
+    tools/gen_peer_gate.py translates from the Rust text on every run: which variant takes the Init arm
+    (`isInitArm`), the Need-an-Init rule (`rejectedBeforeInit` = the `else if their_features.is_none()` test and
+    the variants its body lets through — none in the pristine source), the second-Init rule
+    (`secondInitRejected`), and per arm of the `match message` of do_handle_message_without_peer_lock the
+    handler methods called and when `Err(PeerHandleError)` is returned (`dispatch`). -/
+open Ldk.PeerGate (MK)
 
 inductive GateOut where
   | initOk                 -- the peer's Init was accepted (`their_features = Some(..)`)
-  | passUp (msg : Bytes)   -- handed to a message handler
-  | ignored                -- unknown odd type: "ignoring"
-  | disconnect
+  | passUp (msg : Bytes)   -- handed to a message handler; the peer stays
+  | passUpDisc (msg : Bytes) -- handed to a message handler, THEN `Err(PeerHandleError)` (error with an all-zero channel id)
+  | ignored                -- no handler is called and the peer stays (unknown odd type, warning, what the PeerManager consumes itself)
+  | disconnect             -- `Err(PeerHandleError)` without any handler call
   deriving DecidableEq, Repr
 
 structure Gate where
@@ -196,30 +197,45 @@ def Gate.start : Gate := { theirInit := false, ourInitQueued := true }
 /-- message type = first two bytes, big endian -/
 def msgType (m : Bytes) : Nat := unbe16 m
 
+/-- `msg.channel_id.is_zero()` of an error / warning: the 32 bytes after the type (msgs.rs
+    `impl Writeable for ErrorMessage`: channel_id first); hand-written, tied by the differential run -/
+def chanIdZero (m : Bytes) : Bool := ((m.drop 2).take 32).all (· == 0)
+
+/-- does this arm return `Err(PeerHandleError)` on this message -/
+def armDisconnects (a : PeerGate.Arm) (m : Bytes) : Bool :=
+  match a.disc with
+  | .never => false
+  | .always => true
+  | .ifZeroChannelId => chanIdZero m
+
+/-- the dispatch of do_handle_message_without_peer_lock on one message of variant `k` -/
+def dispatchOut (k : MK) (m : Bytes) : GateOut :=
+  let a := PeerGate.dispatch k (msgType m % 2 == 0)
+  if a.calls.isEmpty then (if armDisconnects a m then .disconnect else .ignored)
+  else if armDisconnects a m then .passUpDisc m else .passUp m
+
 /-- mirrors the head of do_handle_message_holding_peer_lock ("Need an Init as first message",
-    a second Init ⇒ Err, non-Init before Init ⇒ Err) and the `Message::Unknown` arms of
-    do_handle_message_without_peer_lock (even ⇒ Err, odd ⇒ ignore).  `classify` abstracts
-    `wire::read` + the custom reader; `initOk` abstracts the feature/chain compatibility checks
-    and the handlers' `peer_connected` results. -/
-def gateStep (classify : Nat → Kind) (initOk : Bytes → Bool) (g : Gate) (m : Bytes) :
+    a second Init ⇒ Err, non-Init before Init ⇒ Err) followed by the arm of
+    do_handle_message_without_peer_lock.  `classify` abstracts `wire::read` + the custom reader (which
+    `Message` variant the bytes decode to); `initOk` abstracts the feature/chain compatibility checks
+    and the handlers' `peer_connected` results.  Every decision is a generated definition. -/
+def gateStep (classify : Nat → MK) (initOk : Bytes → Bool) (g : Gate) (m : Bytes) :
     Gate × GateOut :=
-  match classify (msgType m) with
-  | .init =>
+  let k := classify (msgType m)
+  if PeerGate.isInitArm k then
     if !initOk m then (g, .disconnect)
-    else if g.theirInit then (g, .disconnect)
+    else if PeerGate.secondInitRejected g.theirInit then (g, .disconnect)
     else ({ g with theirInit := true }, .initOk)
-  | k =>
-    if !g.theirInit then (g, .disconnect)       -- "Peer sent non-Init first message"
-    else match k with
-      | .unknown => if msgType m % 2 = 0 then (g, .disconnect) else (g, .ignored)
-      | _ => (g, .passUp m)
+  else if PeerGate.rejectedBeforeInit g.theirInit k then (g, .disconnect)  -- "Peer sent non-Init first message"
+  else (g, dispatchOut k m)
 
 /-- run the gate over the decrypted message sequence; nothing is processed after a disconnect -/
-def gateRun (classify : Nat → Kind) (initOk : Bytes → Bool) (g : Gate) : List Bytes → List GateOut
+def gateRun (classify : Nat → MK) (initOk : Bytes → Bool) (g : Gate) : List Bytes → List GateOut
   | [] => []
   | m :: ms =>
     match gateStep classify initOk g m with
     | (_, .disconnect) => [.disconnect]
+    | (_, .passUpDisc x) => [.passUp x, .disconnect]
     | (g1, o) => o :: gateRun classify initOk g1 ms
 
 end Ldk.Framing
